@@ -17,6 +17,8 @@ struct OutLine {
     long mainTicks;      // engine-thread main-search node ticks so far
     long allTicks;       // engine-thread node ticks so far (all sites)
     long steps;          // sim steps so far
+    long engClockReads;  // clock reads of the engine thread so far
+    long workTicks;      // work ticks (on-demand tablebase generation) of the engine thread so far
 };
 
 struct SentLine {
@@ -37,6 +39,8 @@ struct LimitEv {
     int tid;
     long mainTicks;
     long allTicks;
+    long engClockReads;
+    long workTicks;
 };
 
 struct SleepEv { long long tBegin, tEnd; long mainTicks; };
@@ -47,6 +51,8 @@ struct History {
     std::vector<LimitEv> limits;
     std::vector<long long> mainTickTimes;   // virtual ns after each engine-thread main-search tick
     std::vector<SleepEv> engineSleeps;      // engine-thread sleeps (throttling / ponder wait)
+    std::vector<long long> workTickTimes;   // virtual ns after each engine-thread work tick (tablebase generation)
+    long long maxWorkTickNs = 0;
     bool eofSent = false;
     uint64_t seqEof = 0;
     bool mainReturned = false;
